@@ -63,6 +63,16 @@ func runC19(rc *RunCtx) {
 		rc.Probe("ctor_refused")
 		return
 	}
+	if flavour == 1 && (sc.Fault == FStall || sc.Fault == FCancelAt || sc.Fault == FCtxDeadline) && len(sc.Full) > len(sc.Reply) && t.Chance(1, 2) {
+		// the rest of the reply arrives after the call has given up, and the next call on the same client finds it
+		sc.LateRest = sc.Full[len(sc.Reply):]
+		if n, ok := genC07Kind(rc, int(sc.Kind)); ok {
+			n.ReadTimeout, n.PortTimeout, n.TOStyle, n.Flusher, n.WriteTimeout = sc.ReadTimeout, sc.PortTimeout, sc.TOStyle, sc.Flusher, sc.WriteTimeout
+			n.KeepStale = true
+			n.Then = nil
+			sc.Then = n
+		}
+	}
 	sc.Hooks = true
 	sc.ObserveParse = sc.Kind != KSerial
 	a := len(rc.Sched.Rec)
@@ -89,6 +99,19 @@ func runC19(rc *RunCtx) {
 	if withHooks.Panic != nil || without.Panic != nil {
 		rc.Violate("panic", base, "panic: %v / %v", withHooks.Panic, without.Panic)
 		return
+	}
+	checkC19Call(rc, sc, withHooks, without, 0)
+	i := 0
+	for next := sc.Then; next != nil && i < len(withHooks.Next) && i < len(without.Next); next = next.Then {
+		checkC19Call(rc, next, withHooks.Next[i], without.Next[i], i+1)
+		i++
+	}
+}
+
+func checkC19Call(rc *RunCtx, sc *C1, withHooks, without *C1Outcome, idx int) {
+	base := fmt.Sprintf("client=%s", sc.Kind)
+	if idx > 0 {
+		base += "|followup"
 	}
 	if !withHooks.Returned || !without.Returned {
 		// termination is C08's business; here only the comparison matters
